@@ -567,15 +567,15 @@ class EndpointLookupInterface(ThingWithCommonRD, ObservableResource):
                         return any(original_matches(v) for v in x.split())
 
                 if search_key == "href":
-                    candidates = (
+                    candidates = [
                         c
                         for c in candidates
                         if matches(c.href)
                         or any(matches(r.href) for r in c.get_based_links().links)
-                    )
+                    ]
                     continue
 
-                candidates = (
+                candidates = [
                     c
                     for c in candidates
                     if (
@@ -588,7 +588,7 @@ class EndpointLookupInterface(ThingWithCommonRD, ObservableResource):
                         _link_matches(r, search_key, matches)
                         for r in c.get_based_links().links
                     )
-                )
+                ]
 
         candidates = _paginate(candidates, query)
 
@@ -627,17 +627,17 @@ class ResourceLookupInterface(ThingWithCommonRD, ObservableResource):
                         return any(original_matches(v) for v in x.split())
 
                 if search_key == "href":
-                    candidates = (
+                    candidates = [
                         (e, c)
                         for (e, c) in candidates
                         if matches(c.href)
                         or matches(
                             e.href
                         )  # FIXME: They SHOULD give this as relative as we do, but don't have to
-                    )
+                    ]
                     continue
 
-                candidates = (
+                candidates = [
                     (e, c)
                     for (e, c) in candidates
                     if _link_matches(c, search_key, matches)
@@ -647,7 +647,7 @@ class ResourceLookupInterface(ThingWithCommonRD, ObservableResource):
                             matches(x) for x in e.registration_parameters[search_key]
                         )
                     )
-                )
+                ]
 
         # strip endpoint
         candidates = (c for (e, c) in candidates)
